@@ -34,6 +34,9 @@ type c02Input struct {
 	// full handshake: the client's configured clock = the fixed clock + ClockYears years + ClockMin minutes
 	// resume: FirstVerifies: the session is created by a verifying configuration (default name, roots, clock);
 	// the second, verifying, configuration has the name Name, the roots Roots2 ("" the CA, "other") and the clock TimeShift
+	// GuessPMS (with NoEncKey): the peer, which cannot decrypt the ClientKeyExchange, bets that the pre-master secret is
+	// the version followed by 46 zero bytes (what a client with a broken random source would send)
+	GuessPMS      bool   `json:"guess_pms,omitempty"`
 	FirstVerifies bool   `json:"first_verifies,omitempty"`
 	Roots2        string `json:"roots2,omitempty"`
 	ClockYears    int    `json:"clock_years,omitempty"`
@@ -139,6 +142,9 @@ func c02Run(in c02Input) (view [10]int, accepted bool, complete bool, delivered 
 	var finSentOK bool
 	script := func(p *puppet.Peer) {
 		p.Sig, p.Enc = sig, enc
+		if in.GuessPMS && !puppet.IsECDHE(in.Suite) {
+			p.GuessPre = append([]byte{1, 1}, make([]byte, 46)...)
+		}
 		p.Absorb(5)
 		if p.DTLS && p.PeerHello != nil && len(p.PeerHello.Cookie) == 0 {
 			p.SendHelloVerify([]byte("cookie-cookie-cookie-cookie-0123"))
@@ -334,6 +340,10 @@ func runC02(p params) error {
 				in = base
 				in.NoEncKey = true
 				c02AddCase(out, "no-enc-private-key", in)
+				if !puppet.IsECDHE(su) {
+					in.GuessPMS = true
+					c02AddCase(out, "no-enc-private-key-guessing-a-zero-secret", in)
+				}
 				// more than two certificates: the key exchange runs against the second one, whatever follows it.
 				// The peer holds the signing key and the key of the THIRD certificate (not of the second) ...
 				in = base
